@@ -98,12 +98,17 @@ def relayPass (st : St) : St × Bool × List (Nat × Nat) := Id.run do
       | _, _ => pure ()
   for w in List.range st.nW do
     match s.topo.consumer w with
-    | .node _ _ =>
+    | .node wi r =>
       match Pump.recv (s.sys.comp w).p with
       | .got _ =>
         s := { s with sys := (step s.rule s.topo s.sys (.bwd w)).1 }
         moved := true
-      | _ => pure ()
+      | .closed =>
+        -- the backward loop ends on the closed channel: Tracer.Drop, if anything still waits
+        if (s.sys.reads wi r).any (fun e => e.2.isNone) then
+          s := { s with sys := (step s.rule s.topo s.sys (.bwd w)).1 }
+          moved := true
+      | .blocked => pure ()
     | .requester => pure ()
   return (s, moved, deliv)
 
